@@ -127,3 +127,28 @@ func recoverTo(kind string, f *[]Finding) {
 	}
 }
 func bits(x float64) uint64 { return math.Float64bits(x) }
+
+// guardInput snapshots the faces handed to an exporter; the returned function
+// reports whether the exporter changed them (values or order of the slice).  The
+// file must hold the faces the caller passed in, so the comparison of what is read
+// back always uses the snapshot's values.
+func guardInput(kind string, tris []*model3d.Triangle) func() *Finding {
+	ptrs := append([]*model3d.Triangle(nil), tris...)
+	vals := make([]model3d.Triangle, len(tris))
+	for i, t := range tris {
+		vals[i] = *t
+	}
+	return func() *Finding {
+		for i, t := range tris {
+			if t != ptrs[i] {
+				return &Finding{kind + "|input-reordered", fmt.Sprintf("the exporter reordered the caller's slice of faces (position %d)", i)}
+			}
+			for j := 0; j < 3; j++ {
+				if !sameCoord(t[j], vals[i][j]) {
+					return &Finding{kind + "|input-modified", fmt.Sprintf("the exporter changed face %d of the caller's mesh: %s became %s", i, fmtTri(&vals[i]), fmtTri(t))}
+				}
+			}
+		}
+		return nil
+	}
+}
